@@ -7,6 +7,8 @@ import (
 
 	"go.lstv.dev/util/internal/vsim/core"
 	"go.lstv.dev/util/internal/vsim/sched"
+	"go.lstv.dev/util/internal/vsim/vatomic"
+	"go.lstv.dev/util/internal/vsim/vrace"
 	"go.lstv.dev/util/internal/vsim/vrand"
 	"go.lstv.dev/util/internal/vsim/vtime"
 	"go.lstv.dev/util/uu"
@@ -31,7 +33,7 @@ func (Prop) Describe() core.Description {
 	return core.Description{
 		Level: "exploration",
 		Rule: "one run = N simulated caller threads (N from {1,2,3,4,8,16,64}, staggered arrivals) x m calls to the real uu.RandomID over import-substituted sync/math/rand/time, " +
-			"under one tape-chosen scheduling strategy, entropy fault mode and clock behaviour; invariants I1 overlap, I2 happens-before, I3 layout, I4 no duplicate (uniform entropy), E1 progress, E2 bit coverage. " +
+			"under one tape-chosen scheduling strategy, entropy fault mode and clock behaviour; invariants I1 overlap, I2 happens-before on the generator, I5 happens-before on instrumented package-level variables, I3 layout, I4 no duplicate (uniform entropy), E1 progress, E2 bit coverage. " +
 			"A run is non-trivial if at least one task blocked on a simulated lock; distinct = distinct hashes of the (task, yield-point kind, object) sequence among non-trivial runs",
 		Assumptions: []string{
 			"vsync.Mutex implements Go's documented mutex semantics (mutual exclusion, unlock happens-before later lock, barging allowed)",
@@ -40,7 +42,7 @@ func (Prop) Describe() core.Description {
 			"sampled schedules, not an enumeration: a clean batch is evidence, not proof",
 		},
 		Real: []string{"uu.RandomID", "uu.twoRandomUint63", "uu.ID.Version", "uu.ID.Variant", "math/rand.Rand (wrapper)"},
-		Stub: []string{"sync.Mutex/RWMutex/Once/WaitGroup/Cond -> vsim/vsync", "math/rand Source and top-level functions -> vsim/vrand.SimSource", "time.Now/Sleep -> vsim/vtime", "Go scheduler -> vsim/sched (seeded baton passing)"},
+		Stub: []string{"sync.Mutex/RWMutex/Once/WaitGroup/Cond/Pool/Map -> vsim/vsync", "sync/atomic -> vsim/vatomic", "go statements, channels, select -> vsim/sched + vsim/vchan", "plain package-level variables: vsim/vrace hooks (happens-before race check)", "math/rand Source and top-level functions -> vsim/vrand.SimSource", "time.Now/Sleep -> vsim/vtime", "Go scheduler -> vsim/sched (seeded baton passing)"},
 		Notes: map[string]string{
 			"static_scan": ScanNote,
 		},
@@ -112,7 +114,7 @@ func (Prop) Run(t *core.Tape, o core.RunOpts) *core.Result {
 		}
 		res.Probes.Inc("long_lived_run")
 	}
-	budget := int64(n*calls)*40 + 2000
+	budget := int64(n*calls)*400 + 20000 // only there to end livelocks
 	salt := t.Word()
 	arrive := make([]int64, n)
 	staggered := t.Bool(1, 4)
@@ -134,6 +136,10 @@ func (Prop) Run(t *core.Tape, o core.RunOpts) *core.Result {
 	s.Salt = salt
 	s.Entropy = entropy
 	vrand.I2Enabled = ScanI2
+	vrace.Enabled = ScanI2
+	vrace.Names = ScanVarNames
+	vrace.Accesses = 0
+	vatomic.Ops = 0
 	vrand.Draws = 0
 	vtime.Reads = 0
 	res.Strategy = strategy.String()
@@ -225,6 +231,8 @@ func (Prop) Run(t *core.Tape, o core.RunOpts) *core.Result {
 	res.Extra.Add("random_id_calls", int64(total))
 	res.Extra.Add("generator_draws", vrand.Draws)
 	res.Extra.Add("clock_reads", vtime.Reads)
+	res.Extra.Add("shared_variable_accesses", vrace.Accesses)
+	res.Extra.Add("atomic_operations", vatomic.Ops)
 	res.Extra.Add("tasks", int64(n))
 	return res
 }
